@@ -38,7 +38,7 @@ ASSUMPTIONS = [
     "the subprocess sample only uses option-free command lines (the sandbox's typer/click pair mis-parses options)",
     "file-level entry points receive the raw bytes; scan_file receives what the tool's reader decodes from them",
 ]
-FLOOR = {"quick": 1500, "thorough": 20000}
+FLOOR = {"quick": 1500, "thorough": 10000}
 
 
 def scan(lang, text):
